@@ -1457,9 +1457,13 @@ VResult o_locate_impl(const VCase &c) {
       LD worst = -1e4000L; // largest signed distance outside a face plane
       bool usable = false;
       const double li = std::cbrt(vol[i]);
+      LD skipped = 0.L; // largest negligible face left out of the test
       for (auto &f : N[i]) {
-        if (!(f.area > AREA_MIN * li * li))
+        if (!(f.area > AREA_MIN * li * li)) {
+          if (f.area > 0.)
+            skipped = std::max(skipped, (LD)f.area);
           continue;
+        }
         usable = true;
         // plane through the reported midpoint, perpendicular to the generator
         // separation (what interact() uses; not the 'normal' of get_neighbours,
@@ -1479,7 +1483,10 @@ VResult o_locate_impl(const VCase &c) {
                    name, q[t], q[t + 1], q[t + 2], idx, worst));
         return r;
       }
-      if (i != idx && worst < -2. * MU) {
+      // (a negligible face that was left out removes a sliver of about its
+      // own diameter from the cell: a position closer than that to the
+      // remaining planes may belong to the neighbour behind the sliver)
+      if (i != idx && worst < -2. * MU - 4.L * sqrtl(skipped)) {
         r.fail(fmt("%s: position (%.17g, %.17g, %.17g) is located in cell %zu, but also lies "
                    "inside every face plane of cell %zu (by %Lg)",
                    name, q[t], q[t + 1], q[t + 2], idx, i, -worst));
